@@ -8,6 +8,12 @@ ENGINES = [
 ]
 NOT_APPLICABLE = {}
 CLAIMED = {
+ "C20": {
+  "engine": "tlc + csl-conform (spec/lib/LedgerRules.tla, spec/sys/Deposits.tla, spec/mc/MC_Deposits.tla, spec/trace/Trace_Deposits.tla)",
+  "technique": "ledger deposit/refund table for the 19 certificate kinds in TLA+; TLC model-checks helper table = builder table = ledger table over all histories of certificate/withdrawal/proposal additions and emits each state as a scenario; real bodies and builders are built from them; TLC parses the emitted body bytes with its own CBOR grammar, recomputes deposit and implicit input and validates the four recorded figures (helpers on constructed and decoded body, builder) and that the builder emits the same content",
+  "text": "Exhaustive over histories of <= 2 (quick) / 3 (thorough) additions with amounts at the 64-bit boundary on the model and on the real code, plus seeded random lists; figures recomputed by the specification from emitted bytes. Not a proof for all bodies.",
+  "note": "Trusted: TLC, the transcription of the Conway deposit table in LedgerRules.tla (from the published ledger spec, from memory), CBOR.tla, harness logging (negative control --selftest). Key-hash credentials only; info-action proposals; pool registrations counted as first registrations.",
+ },
  "C14": {
   "engine": "tlc + csl-conform (spec/lib/BigNat.tla, Value.tla, CBOR.tla; spec/sys/Numeric.tla; spec/mc/MC_Numeric.tla, MC_BigNat.tla; spec/trace/Trace_Numeric.tla)",
   "technique": "TLA+ exact semantics of BigNum/Int/BigInt/Value/mint accumulation over base-256 big naturals; TLC enumerates an operand lattice (64-bit edges, -2^64, out-of-range and malformed strings, non-minimal CBOR, a 48-value Value universe) and checks the Value laws on the model; every case and seeded random operands are executed on the real types and each observation (value, accessors, CBOR bytes, decimal and JSON round trips) is validated by TLC",
